@@ -1,6 +1,7 @@
 package main
 
 import (
+	"fmt"
 	"sort"
 )
 
@@ -110,64 +111,103 @@ func cloneDir(d Dir) Dir {
 	return d
 }
 
-// structural offsets of one direction, from the protocol layout of the first
-// write and the recorded transport writes of an uncut run.
-func structural(first []int64, wlog []int, total int64) (all []int64, handshake []int64) {
-	set := map[int64]bool{}
-	add := func(o int64, hs bool) {
+// namedOff is a structural offset of one direction's wire stream.
+type namedOff struct {
+	off  int64
+	name string
+	hs   bool // belongs to the handshake (first transport write)
+}
+
+// wireOffsets lists the structural offsets +-1 of one direction, from the
+// protocol layout of the first write and the recorded transport writes of an
+// uncut run: prefix, salt, identity header, fixed-length header and its tag,
+// variable-length header (c2s) / response header and first payload chunk
+// (s2c), and length chunk / payload chunk boundaries of the first three later
+// transport writes and of the last one.  Ascending, without duplicates.
+func wireOffsets(t Tun, dir string, wlog []int) []namedOff {
+	var total int64
+	for _, x := range wlog {
+		total += int64(x)
+	}
+	var out []namedOff
+	seen := map[int64]bool{}
+	add := func(o int64, name string, hs bool) {
 		for _, d := range []int64{-1, 0, 1} {
 			x := o + d
-			if x > 0 && x < total && !set[x] {
-				set[x] = true
-				all = append(all, x)
-				if hs {
-					handshake = append(handshake, x)
+			if x > 0 && x < total && !seen[x] {
+				seen[x] = true
+				n := name
+				if d < 0 {
+					n += "-1"
+				} else if d > 0 {
+					n += "+1"
 				}
+				out = append(out, namedOff{x, n, hs})
 			}
 		}
 	}
-	for _, o := range first {
-		add(o, true)
+	if dir == "c2s" {
+		p := int64(t.Req)
+		s := p + int64(t.Key)
+		e := s
+		if t.EIH > 0 {
+			e += 16
+		}
+		add(p, "request-prefix-end", true)
+		add(s, "salt-end", true)
+		if t.EIH > 0 {
+			add(e, "identity-header-end", true)
+		}
+		add(e+11, "fixed-header-end", true)
+		add(e+27, "fixed-header-tag-end", true)
+	} else {
+		p := int64(t.Resp)
+		s := p + int64(t.Key)
+		h := s + int64(1+8+t.Key+2)
+		add(p, "response-prefix-end", true)
+		add(s, "salt-end", true)
+		add(h, "response-header-end", true)
+		add(h+16, "response-header-tag-end", true)
 	}
 	var start int64
 	for i, n := range wlog {
 		end := start + int64(n)
 		if i == 0 {
-			add(end-16, true)
-			add(end, true)
+			if dir == "c2s" {
+				add(end-16, "variable-header-end", true)
+			} else {
+				add(end-16, "first-payload-end", true)
+			}
+			add(end, "first-write-end", true)
 		} else if i <= 3 || i == len(wlog)-1 {
-			add(start+2, false)
-			add(start+18, false)
-			add(end-16, false)
-			add(end, false)
+			w := fmt.Sprintf("write%d", i)
+			if i > 3 {
+				w = "last-write"
+			}
+			add(start+2, w+"-length-end", false)
+			add(start+18, w+"-length-tag-end", false)
+			add(end-16, w+"-payload-end", false)
+			add(end, w+"-end", false)
 		}
 		start = end
 	}
-	sort.Slice(all, func(i, j int) bool { return all[i] < all[j] })
-	sort.Slice(handshake, func(i, j int) bool { return handshake[i] < handshake[j] })
-	return
+	sort.SliceStable(out, func(i, j int) bool { return out[i].off < out[j].off })
+	return out
 }
 
-func layoutC2S(t Tun) []int64 {
-	p := int64(t.Req)
-	s := p + int64(t.Key)
-	e := s
-	if t.EIH > 0 {
-		e += 16
-	}
-	return []int64{p, s, e, e + 11, e + 27}
+// uncut returns the case without any transport fragmentation.
+func uncut(c *Case) *Case {
+	d := *c
+	d.C2S, d.S2C = cloneDir(c.C2S), cloneDir(c.S2C)
+	d.C2S.Cuts, d.S2C.Cuts, d.C2S.Every, d.S2C.Every, d.Every2 = nil, nil, 0, 0, 0
+	return &d
 }
 
-func layoutS2C(t Tun) []int64 {
-	p := int64(t.Resp)
-	s := p + int64(t.Key)
-	h := s + int64(1+8+t.Key+2)
-	return []int64{p, s, h, h + 16}
-}
-
-func totalOf(wlog []int) (n int64) {
-	for _, x := range wlog {
-		n += int64(x)
+func offsetsOf(list []namedOff, hsOnly bool) (out []int64) {
+	for _, x := range list {
+		if !hsOnly || x.hs {
+			out = append(out, x.off)
+		}
 	}
 	return
 }
@@ -298,9 +338,14 @@ func enumerate(thorough bool, emit func(*Case)) {
 					emit(&c)
 				}
 				// single cuts at every structural offset +-1, from an uncut recording run
-				rec := runCase(&base)
-				c2sAll, c2sHS := structural(layoutC2S(b.t), rec.Logs["t1.c2s"], totalOf(rec.Logs["t1.c2s"]))
-				s2cAll, s2cHS := structural(layoutS2C(b.t), rec.Logs["t1.s2c"], totalOf(rec.Logs["t1.s2c"]))
+				rec, hung := safeRun(&base)
+				if hung || rec == nil {
+					rec = &result{Logs: map[string][]int{}}
+				}
+				c2sOffs := wireOffsets(b.t, "c2s", rec.Logs["t1.c2s"])
+				s2cOffs := wireOffsets(b.t, "s2c", rec.Logs["t1.s2c"])
+				c2sAll, c2sHS := offsetsOf(c2sOffs, false), offsetsOf(c2sOffs, true)
+				s2cAll, s2cHS := offsetsOf(s2cOffs, false), offsetsOf(s2cOffs, true)
 				for _, o := range c2sAll {
 					c := base
 					c.C2S, c.S2C = cloneDir(base.C2S), cloneDir(base.S2C)
